@@ -27,9 +27,18 @@ def main():
         rows.append("| `%s` | %s | %s | %s | %s | %s |" % (
             name, m.get("breaks_property", "?"), m.get("needs_to_manifest", ""),
             " ".join(replay) or "—", " ".join(tie) or "—", mons or "—"))
-    print("| seeded change | breaks | needs, to manifest | checks run: VIOLATION with a concrete replay | checks run: no-failing-input-found | programs (of the quick batch) rejected per property's monitor |")
-    print("|---|---|---|---|---|---|")
-    print("\n".join(rows))
+    text = ("| seeded change | breaks | needs, to manifest | checks run: VIOLATION with a concrete replay | checks run: no-failing-input-found | programs (of the quick batch) rejected per property's monitor |\n"
+            "|---|---|---|---|---|---|\n" + "\n".join(rows))
+    if "--update" in sys.argv:
+        # replace the table between the two markers of DESIGN.md in place
+        dp = os.path.join(ROOT, "DESIGN.md")
+        s = open(dp).read()
+        b, e = "<!-- SEEDED_TABLE_BEGIN -->\n", "<!-- SEEDED_TABLE_END -->"
+        i, j = s.index(b) + len(b), s.index(e)
+        open(dp, "w").write(s[:i] + text + "\n" + s[j:])
+        print("DESIGN.md: table of %d seeded changes updated" % len(rows))
+    else:
+        print(text)
 
 
 if __name__ == "__main__":
